@@ -228,6 +228,24 @@ func checkC01(c *Check) {
 					det = append(det, "reads "+strings.Join(bad, ", "))
 				}
 			}
+			if r.what == "payload" {
+				// ... and is exactly its decoding: nothing added, dropped or padded
+				want := "recv.base.Payload"
+				if f.name == "JWS" {
+					want = "(*encoding/base64.Encoding).DecodeString(encoding/base64.RawURLEncoding, recv.base.Payload)#0"
+				}
+				exact := len(cok) > 0
+				var d2 []string
+				for _, s := range cok {
+					if ft := fieldPath(s.Ret[0].T, r.path...); ft == nil || ft.Key() != want {
+						exact = false
+						if ft != nil {
+							d2 = append(d2, "payload is "+ft.Key())
+						}
+					}
+				}
+				c.add("O-C01.4", f.name+": the returned payload is exactly the verified payload", "the returned payload is "+want+" and nothing else (a buffer of the decoded size filled by Decode keeps padding bytes the key never signed)", exact, posOf(cpg, cok), dedupe(sortedCopy(d2))...)
+			}
 			c.add("O-C01.4", f.name+": "+r.what+" derives only from the verified field", "the returned "+r.what+" reads the envelope only through "+strings.Join(r.allowed, " / "), good, posOf(cpg, cok), dedupe(sortedCopy(det))...)
 		}
 		// no condition of Content reads an unsigned part to decide a signed output
